@@ -597,7 +597,9 @@ ForStmt(st, m) ==
   LET s1 == Expect(Name(TypeSpec(Bump(Require(st, At(st, "FOR_KW"), "for_stmt"), "FOR_KW"))), "IN_KW").st
       m1 == M(s1)
       s2 == St(s1)
-      s3 == IF At(s2, "L_CURLY") THEN SetExpression(s2) ELSE IF At(s2, "L_BRACK") THEN RangeExpr(s2) ELSE Expr(s2).st
+      s3 == IF At(s2, "L_CURLY") THEN SetExpression(s2) ELSE IF At(s2, "L_BRACK") THEN RangeExpr(s2)
+            ELSE IF At(s2, "IDENT") /\ Nth(s2, 1) \in {"IDENT", "HARDWAREIDENT"} THEN Identifier(s2).st      \* `for T i in name stmt`
+            ELSE Expr(s2).st
       s4 == BlockOrStatement(Complete(s3, m1, "FOR_ITERABLE"))
   IN Complete(s4, m, "FOR_STMT")
 CaseLoop(st) ==
